@@ -12,6 +12,12 @@
 (*  Repl  two sharder pools (orders o1,o2), one block hash, n replicators:  *)
 (*        set1,set2 = nodes of CanShardBlockWithReplicators, in1,in2 =      *)
 (*        IsBlockSharder per sharder, ok1,ok2 = its boolean per sharder     *)
+(*        (-1 = the pool map does not know the sharder); ob, re = the pool  *)
+(*        history of node 2 (Rank.tla ShareOther / ReAdd2): after o2 the    *)
+(*        same node objects ob were added to another magic block's pool and *)
+(*        the sharders re (a = name, d = 1 fresh object) were added again;  *)
+(*        both empty for plain insertion.  The history is free: whatever it *)
+(*        is, the two nodes know the same sharders and must agree.          *)
 (***************************************************************************)
 EXTENDS TraceLib
 VARIABLES l, ev
